@@ -42,7 +42,13 @@ def _compare_once(mjm, mjd, m, d, cmp):
   mjw.forward(m, d)
   sd = d.sensordata.numpy()
   # acceleration-stage sensors are computed from solver outputs: tolerance relative to the magnitude of the forces involved
-  fscale = max([1.0] + [float(np.abs(x).max()) for x in (mjd.qfrc_constraint, mjd.qacc, mjd.cfrc_int, mjd.cacc) if x.size]) if mjd.nefc else None
+  # (without constraints as well: a small linear acceleration of a fast-spinning body is a difference of large terms)
+  fscale = max([1.0] + [float(np.abs(x).max()) for x in (mjd.qfrc_constraint, mjd.qacc, mjd.cfrc_int, mjd.cacc) if x.size])
+  # F23 (C05): an equality between two static bodies has no row in MuJoCo and an all-zero row with D = 1e15 in MJWarp; any rounding residual then gives an
+  # astronomic row force, and everything computed from constraint forces (force / torque / accelerometer ...) is off.  Same finding, named here by its cause.
+  EQ = mujoco.mjtEq
+  zero_eq = any(int(mjm.eq_type[e]) in (int(EQ.mjEQ_CONNECT), int(EQ.mjEQ_WELD)) and int(mjm.eq_objtype[e]) == int(mujoco.mjtObj.mjOBJ_BODY) and mjm.body_treeid[mjm.eq_obj1id[e]] < 0
+                and mjm.body_treeid[mjm.eq_obj2id[e]] < 0 for e in range(mjm.neq)) and int(d.nefc.numpy()[0]) > mjd.nefc
   for w in range(d.nworld):
     # per sensor, so that a violation names the sensor type
     for s in range(mjm.nsensor):
@@ -57,6 +63,8 @@ def _compare_once(mjm, mjd, m, d, cmp):
         if body >= 0 and mjm.body_treeid[body] < 0:
           name += "@static_body"
       acc = mjm.sensor_needstage[s] == mujoco.mjtStage.mjSTAGE_ACC
+      if acc and zero_eq:
+        name = f"sensor:{st}@zero_jacobian_equality"
       ref = mjd.sensordata[a : a + n]
       if st == "mjSENS_E_KINETIC":
         # mj_forward evaluates the e_kinetic SENSOR before it recomputes the kinetic energy (it reports the previous call's value on
@@ -91,8 +99,9 @@ def replay(ctx, scen):
   rec = {"c": scen["scenario"]["cfg"]}
   for res in parity.chunk((__name__, "compare", [rec], scen.get("seed", ctx.seed), 2, {"tol": 1e-4})):
     ctx.case(rec)
-    if res["bad"]:
-      ctx.violation({"what": "sensor / energy differs from MuJoCo C", "field": res["bad"][0][0]}, str(res["bad"][:5]), scen["scenario"])
+    for name in sorted({x[0] for x in res["bad"]}):  # same keys as parity.run: one per field, class after the '@'
+      fld, _, cls = name.partition("@")
+      ctx.violation(dict({"what": "sensor / energy differs from MuJoCo C", "field": fld}, **({"cls": cls} if cls else {})), str([x for x in res["bad"] if x[0] == name][:5]), scen["scenario"])
 
 
 META = {
